@@ -188,6 +188,15 @@ pub fn cmd(_args: &[String]) {
                     Err(p) => ("panic".to_string(), String::new(), String::new(), panic_message(&p)),
                 }
             }
+            // typecheck only: the reported type of the expression
+            "typecheck" => {
+                let vm = entry.0.clone();
+                match catch_unwind(AssertUnwindSafe(|| vm.typecheck_str("prog", src, None))) {
+                    Ok(Ok((_, typ))) => ("ok".to_string(), String::new(), typ.to_string(), String::new()),
+                    Ok(Err(e)) => ("err".to_string(), String::new(), String::new(), e.to_string()),
+                    Err(p) => ("panic".to_string(), String::new(), String::new(), panic_message(&p)),
+                }
+            }
             // load (possibly damaged) serialised bytecode given in "src"
             "load" => {
                 let vm = entry.0.clone();
